@@ -23,6 +23,7 @@ FLOORS = {'R1': 5, 'R2': 9, 'R3': 5, 'R4': 5, 'R5': 9, 'R6': 5, 'R7': 3, 'R8': 2
 
 def run(ctx):
     prog = ctx.prog
+    PROG[0] = prog
     magic = c01._magic_consts(prog)
     H = r2(ctx)
     r1(ctx, H)
@@ -405,11 +406,26 @@ def r7(ctx):
                   'a path publishes the chunk without overwriting the next marker word although that word is free')
 
 
+PROG = [None]
+
+
 def len_bounded_pred(f, lenp):
     """predicate for atoms that bound the length parameter by the size of the ring: `len <= g(word_size)` with len standing alone
     on its side, or the zero value of a flag whose only definition is `len > g(word_size)`"""
-    def on_ring(e):
-        return any(n.get('k') == 'mem' and n.get('f') == 'word_size' for n in walk(e)) and not has_call(e, 'qb_rb_space_free')
+    def on_ring(e, depth=2):
+        if has_call(e, 'qb_rb_space_free'):
+            return False
+        if any(n.get('k') == 'mem' and n.get('f') == 'word_size' for n in walk(e)):
+            return True
+        # a function of the ring alone that is computed from word_size (the longest chunk the empty ring holds)
+        if depth > 0:
+            for n in walk(e):
+                if n.get('k') == 'call' and callee_of(n):
+                    for g in PROG[0].fns.get(callee_of(n), []):
+                        if not list(g.events('STORE')) and not any(c.callee == 'qb_rb_space_free' for c in g.events('CALL')) and \
+                                g.returns() and all(r.e is not None and on_ring(r.e, depth - 1) for r in g.returns()):
+                            return True
+        return False
 
     def flag_def(name):
         ds = [ev for ev in list(f.events('STORE')) + list(f.events('DECL'))
